@@ -205,6 +205,35 @@ fn op_atomic<T: AtomicAccess + std::fmt::Debug, M: GuestMemory>(h: &mut H, mem: 
     h.frame(name);
 }
 
+struct Chunky<'a> {
+    data: &'a [u8],
+    pos: usize,
+    chunk: usize,
+    calls: usize,
+}
+impl vm_memory::ReadVolatile for Chunky<'_> {
+    fn read_volatile<B: vm_memory::bitmap::BitmapSlice>(&mut self, buf: &mut vm_memory::VolatileSlice<B>) -> Result<usize, vm_memory::VolatileMemoryError> {
+        self.calls += 1;
+        let n = buf.len().min(self.chunk).min(self.data.len() - self.pos);
+        buf.write_slice(&self.data[self.pos..self.pos + n], 0)?;
+        self.pos += n;
+        Ok(n)
+    }
+}
+struct ChunkySink<'a> {
+    out: &'a mut Vec<u8>,
+    chunk: usize,
+}
+impl vm_memory::WriteVolatile for ChunkySink<'_> {
+    fn write_volatile<B: vm_memory::bitmap::BitmapSlice>(&mut self, buf: &vm_memory::VolatileSlice<B>) -> Result<usize, vm_memory::VolatileMemoryError> {
+        let n = buf.len().min(self.chunk);
+        let mut tmp = vec![0u8; n];
+        buf.read_slice(&mut tmp, 0)?;
+        self.out.extend_from_slice(&tmp);
+        Ok(n)
+    }
+}
+
 /// stream forms with in-memory streams
 fn op_stream<M: GuestMemory>(h: &mut H, mem: &M, a: u64, count: usize, which: u64, r: &mut Rng) {
     let run = h.flat.lay.run(a as u128);
@@ -227,8 +256,14 @@ fn op_stream<M: GuestMemory>(h: &mut H, mem: &M, a: u64, count: usize, which: u6
             let src = r.bytes(slen);
             let name = if exact { "read_exact_volatile_from" } else { "read_volatile_from" };
             h.trace.push(format!("{}(addr {:#x}, count {}, stream {})", name, a, count, slen));
-            let use_cursor = r.chance(1, 2);
-            let (res, consumed): (Result<usize, GErr>, usize) = if use_cursor {
+            let src_kind = r.below(3);
+            let (res, consumed): (Result<usize, GErr>, usize) = if src_kind == 2 {
+                // a source that only ever delivers a few bytes per call (pipe / socket behaviour)
+                let mut c = Chunky { data: &src[..], pos: 0, chunk: 1 + r.usize_below(7), calls: 0 };
+                let res = if exact { mem.read_exact_volatile_from(ga, &mut c, count).map(|()| count) } else { mem.read_volatile_from(ga, &mut c, count) };
+                out::count("chunked_stream_transfers", 1);
+                (res, c.pos)
+            } else if src_kind == 1 {
                 let mut c = Cursor::new(&src[..]);
                 let res = if exact { mem.read_exact_volatile_from(ga, &mut c, count).map(|()| count) } else { mem.read_volatile_from(ga, &mut c, count) };
                 (res, c.position() as usize)
@@ -263,7 +298,14 @@ fn op_stream<M: GuestMemory>(h: &mut H, mem: &M, a: u64, count: usize, which: u6
             let name = if exact { "write_all_volatile_to" } else { "write_volatile_to" };
             h.trace.push(format!("{}(addr {:#x}, count {})", name, a, count));
             let mut sink: Vec<u8> = vec![0x77; 3];
-            let res = if exact { mem.write_all_volatile_to(ga, &mut sink, count).map(|()| count) } else { mem.write_volatile_to(ga, &mut sink, count) };
+            let res = if r.chance(1, 2) {
+                if exact { mem.write_all_volatile_to(ga, &mut sink, count).map(|()| count) } else { mem.write_volatile_to(ga, &mut sink, count) }
+            } else {
+                // a sink that accepts only a few bytes per call
+                let mut cs = ChunkySink { out: &mut sink, chunk: 1 + r.usize_below(7) };
+                out::count("chunked_stream_transfers", 1);
+                if exact { mem.write_all_volatile_to(ga, &mut cs, count).map(|()| count) } else { mem.write_volatile_to(ga, &mut cs, count) }
+            };
             let n = (count as u128).min(run) as usize;
             let outcome;
             match &res {
